@@ -44,6 +44,7 @@ def run(ctx):
     ctx.rule(split_invariance)
     ctx.rule(frame_style_domain)
     ctx.rule(instance_state_only)
+    ctx.rule(any_layout)
     ctx.rule(si_finalize)
     ctx.rule(carry)
     ctx.rule(shift_register)
@@ -356,6 +357,20 @@ def instance_state_only(ctx, R="R-C01-carry-reset"):
     overwrites the history the next chunk relies on (the rule of C04, re-established here)"""
     from .c04 import no_module_state
     no_module_state(ctx, R)
+
+
+def any_layout(ctx, R="R-C01-driver"):
+    """every float signal is a valid input of the streaming interface and of compute_full, whatever its memory layout"""
+    from . import partial
+    prog = ctx.prog
+    roots = []
+    for cname in ("compute.ShortTimeFourierTransformFrameComputer", "compute.ShortIntegrationFrameComputer"):
+        for meth in ("compute_chunk", "compute_full", "finalize"):
+            m = prog.find_method(prog.cls(cname), meth)
+            if m is not None and m not in roots:
+                roots.append(m)
+    roots.append(prog.func("compute.frame_by_frame_calculation"))
+    partial.layout_independent(ctx, R, roots)
 
 
 def frame_style_domain(ctx, R="R-C01-geom-siblings"):
